@@ -155,7 +155,7 @@ TOPOSORT_EDITS = [
     ins(A.sig(), '''
     requires wf(graph@)
     ensures
-        /*C11-perm*/ is_perm(ret@, graph@.len() as int),
+        /*C11-C03-perm*/ is_perm(ret@, graph@.len() as int),
         /*C11-topo*/ acyclic(graph@) ==> closed(graph@, ret@),
 ''', cid='toposort_impl.contract'),
     # ---- inner contract
@@ -166,16 +166,16 @@ TOPOSORT_EDITS = [
             nodup(old(processed)@), all_lt(old(processed)@, graph@.len() as int),
             nodup(old(seen)@), all_lt(old(seen)@, graph@.len() as int),
             disjoint(old(seen)@, old(processed)@),
-            acyclic(graph@) ==> stack_ok(graph@, old(seen)@, nodes@),
-            acyclic(graph@) ==> closed(graph@, old(processed)@),
+            /*C11-topo*/ acyclic(graph@) ==> stack_ok(graph@, old(seen)@, nodes@),
+            /*C11-topo*/ acyclic(graph@) ==> closed(graph@, old(processed)@),
         ensures
-            final(seen)@ == old(seen)@,
-            final(res)@ == final(processed)@,
-            is_prefix(old(processed)@, final(processed)@),
-            nodup(final(processed)@), all_lt(final(processed)@, graph@.len() as int),
-            disjoint(old(seen)@, final(processed)@),
-            (old(seen)@.len() == 0 || acyclic(graph@)) ==> forall|k: int| 0 <= k < nodes@.len() ==> final(processed)@.contains(#[trigger] nodes@[k]),
-            acyclic(graph@) ==> closed(graph@, final(processed)@),
+            /*C11-C03*/ final(seen)@ == old(seen)@,
+            /*C11-C03*/ final(res)@ == final(processed)@,
+            /*C11-C03*/ is_prefix(old(processed)@, final(processed)@),
+            /*C11-C03*/ nodup(final(processed)@), all_lt(final(processed)@, graph@.len() as int),
+            /*C11-C03*/ disjoint(old(seen)@, final(processed)@),
+            /*C11-C03*/ (old(seen)@.len() == 0 || acyclic(graph@)) ==> forall|k: int| 0 <= k < nodes@.len() ==> final(processed)@.contains(#[trigger] nodes@[k]),
+            /*C11-topo*/ acyclic(graph@) ==> closed(graph@, final(processed)@),
         decreases graph@.len() - old(seen)@.len()
 ''', cid='inner.contract'),
     ins(A.body_start(fn='inner'), '''
@@ -197,9 +197,9 @@ TOPOSORT_EDITS = [
                 is_prefix(proc0, processed@),
                 nodup(processed@), all_lt(processed@, n),
                 disjoint(seen0, processed@),
-                acyclic(graph@) ==> stack_ok(graph@, seen0, nodes@),
-                acyclic(graph@) ==> closed(graph@, processed@),
-                (seen0.len() == 0 || acyclic(graph@)) ==> forall|k: int| 0 <= k < it.index@ ==> processed@.contains(#[trigger] nodes@[k]),
+                /*C11-topo*/ acyclic(graph@) ==> stack_ok(graph@, seen0, nodes@),
+                /*C11-topo*/ acyclic(graph@) ==> closed(graph@, processed@),
+                /*C11-C03*/ (seen0.len() == 0 || acyclic(graph@)) ==> forall|k: int| 0 <= k < it.index@ ==> processed@.contains(#[trigger] nodes@[k]),
         ''', cid='inner.loop_invariant'),
     ins(A.text('if !processed.contains(dependant) {'), '''let ghost kidx = it.index@;
             let ghost proc1 = processed@;
